@@ -21,8 +21,8 @@ PROPERTY = "C08"
 LEVEL = "fault_enumeration"
 FANOUT_CHUNK = 1
 RULE = (
-    "workloads {W1 create catalog, W2 overwrite a catalog of other data, W3 open a catalog without meta.yml (metadata "
-    "computed), W4 first build_trees, W5 rebuild for other edges of the same bin count, W6 rebuild binned->unbinned, W7 "
+    "workloads {W1 create catalog (W1p: with two workers, crash points in the writer process), W2 overwrite a catalog of other data, W3 open a catalog without meta.yml (metadata "
+    "computed), W4 first build_trees, W5 rebuild for other edges of the same bin count (W5f: forced), W6 rebuild binned->unbinned, W7 "
     "CorrFunc.to_file over an older file, W8 CorrData.to_files over older files, W9 Configuration.to_file over an older "
     "file} x every crash point = entry of every mutating file-system call (mkdir, creating/truncating openat, write, "
     "pwrite64, unlink, rmdir, rename, ftruncate) of the recorded workload, injected with strace "
@@ -39,8 +39,8 @@ ASSUMPTIONS = [
     "sequential pipeline only (YAW_NUM_THREADS=1)",
 ]
 
-QUICK = ("W1", "W2", "W5", "W8")
-ALL = ("W1", "W2", "W3", "W4", "W5", "W6", "W7", "W8", "W9")
+QUICK = ("W1", "W2", "W5", "W5f", "W8")
+ALL = ("W1", "W2", "W3", "W4", "W5", "W5f", "W6", "W7", "W8", "W9", "W1p")
 
 
 def norm(text, base):
@@ -69,7 +69,9 @@ def cases(tier, seed):
                 if not op["mutating"]:
                     continue
                 k += 1
-                out.append(dict(workload=wl, k=k, name=op["name"], ordinal=op["ordinal"],
+                if wl.endswith("p") and op["proc"] != ops[[o["mutating"] for o in ops].index(True)]["proc"]:
+                    continue  # parallel creation: crash points in the writer process (the first to touch the cache)
+                out.append(dict(workload=wl, k=k, name=op["name"], ordinal=op["ordinal"], proc=op["proc"],
                                 text=norm(op["text"], base), rel_paths=rel, snap=snap,
                                 total=sum(1 for o in ops if o["mutating"])))
     return out
@@ -165,7 +167,7 @@ def observe(wl, base):
     F = fresh()
     bad = []
     R = os.path.join(base, "R")
-    if wl in ("W1", "W2", "W3", "W4", "W5", "W6"):
+    if wl in ("W1", "W1p", "W2", "W3", "W4", "W5", "W5f", "W6"):
         try:
             cat = Catalog(R)
             recs = records_of(cat)
@@ -260,10 +262,13 @@ def run_case(case):
         shutil.copytree(case["snap"], base, symlinks=True)
     else:  # replay in another process: rebuild the prior state
         crashx.setup(wl, base)
-    op = dict(name=case["name"], ordinal=case["ordinal"])
+    op = dict(name=case["name"], ordinal=case["ordinal"], proc=case.get("proc", 0))
     res = crashx.inject(wl, base, case["rel_paths"], op, d)
     def args_of(t):
-        return t.split(" = ")[0].split("(", 1)[-1].rstrip(") ")[:80]
+        a = t.split(" = ")[0].split("(", 1)[-1].rstrip(") ")[:80]
+        if wl.endswith("p"):  # parallel creation: the order of the records within a patch file is up to the real
+            a = re.sub(r'>, ".*', ">", a)  # scheduler, compare the call and its file only
+        return a
 
     if not res["matched"] or args_of(norm(res["tail"], base)) != args_of(case["text"]):
         raise RuntimeError(f"kill did not land on the recorded operation: wanted {case['text']}, got {res}")
